@@ -83,7 +83,7 @@ func TestC11(t *testing.T) {
 					rec.Case(true, c, "pattern")
 					if err := checkCell(c); err != nil && failed < 5 {
 						failed++
-						path := rec.Violation("cell", c, "", err)
+						path := cellViolation(rec, c, err)
 						t.Errorf("C11 violation: %v (replay %s)", err, path)
 					}
 				}
@@ -108,7 +108,7 @@ func TestC11(t *testing.T) {
 		rec.Case(true, c, "random")
 		rec.Sample(c)
 		if err := checkCell(c); err != nil {
-			rec.Violation("cell", c, "", err)
+			cellViolation(rec, c, err)
 			rt.Fatalf("C11 violation: %v", err)
 		}
 	})
